@@ -5,8 +5,8 @@
 
 use crate::Uint;
 use parity_scale_codec::{
-    Compact, CompactAs, Decode, Encode, EncodeAsRef, EncodeLike, Error, HasCompact, Input,
-    MaxEncodedLen, Output,
+    Compact, CompactAs, CompactLen, Decode, Encode, EncodeAsRef, EncodeLike, Error, HasCompact,
+    Input, MaxEncodedLen, Output,
 };
 
 #[allow(unused_imports)]
@@ -29,8 +29,11 @@ impl<const BITS: usize, const LIMBS: usize> Encode for Uint<BITS, LIMBS> {
 }
 
 impl<const BITS: usize, const LIMBS: usize> MaxEncodedLen for Uint<BITS, LIMBS> {
+    /// Compact length prefix of the byte vector + the bytes themselves.
     fn max_encoded_len() -> usize {
-        core::mem::size_of::<Self>()
+        #[allow(clippy::cast_possible_truncation)] // a byte vector longer than u32::MAX cannot be encoded
+        let prefix = Compact::<u32>::compact_len(&(Self::BYTES as u32));
+        prefix + Self::BYTES
     }
 }
 
